@@ -165,6 +165,24 @@ func planC12(tier string, root *simcore.RNG) *plan {
 				Sites: map[string]uint32{"close": 1, "mc.sent": 1, "cons.tri": 1, "cons.stl": 1, "cons.stl.flush": 1}, Sched: Sched{Policy: "fifo"}, Env: genEnv(r), Note: "resolution-sweep"})
 		}
 	}
+	// part 1e: renderers that emit non-finite or absurdly large coordinates (a model
+	// with a singularity): every entry must still return, with and without disk faults
+	for _, sink := range []string{"tri", "stl", "3mf", "dxf", "svg"} {
+		for _, fk := range []Fault{{}, {Kind: "devfull"}, {Kind: "fsize", Budget: 8192}} {
+			if sink == "tri" && fk.Kind != "" {
+				continue
+			}
+			r := root.Fork()
+			kind := "script3"
+			if sink == "dxf" || sink == "svg" {
+				kind = "script2"
+			}
+			n := 400 + r.Intn(800)
+			j := Job{ID: 1, Kind: kind, Sink: sink, N: n, Batches: genPartition(r, n, 1+r.Intn(2), pick(r, []string{"small", "fives", "mixed"})), Coords: "nonfinite", CoordSeed: r.Uint64(), Fault: fk}
+			pl.scenarios = append(pl.scenarios, &Scenario{Prop: "C12", Family: "fault", Seed: r.Uint64(), Groups: [][]Job{{j}}, Sites: activeSites(r, sink, true), Env: genEnv(r),
+				Sched: genSched(r, []string{"consumer", "renderer"}), Note: "nonfinite"})
+		}
+	}
 	// part 1b: a failing sink next to healthy renders in the same process
 	// (they share the worker pool and the evaluation channel)
 	npairs := 40
@@ -292,6 +310,9 @@ func planC12(tier string, root *simcore.RNG) *plan {
 			return true, fmt.Sprintf("census/%d", o.sc.Seed)
 		}
 		j := &o.sc.Groups[0][0]
+		if o.sc.Note == "nonfinite" {
+			return true, fmt.Sprintf("nonfinite/%s/%s", j.Sink, j.Fault.Kind)
+		}
 		if o.sc.Note == "resolution-sweep" {
 			return true, fmt.Sprintf("sweep/%s/%d", j.Model, j.Cells)
 		}
